@@ -332,3 +332,83 @@ def check_table(ctx, rule, name, rows, domain, ref, where=""):
     ctx.ob(rule, name + "/table", ok_all and ncells > 0, where,
            "decision table evaluated on %d cells over %s: %s" % (ncells, atoms, "all equal to reference" if ok_all else "; ".join(bad)))
     return ok_all and not unknown
+
+
+def cell_eval(body, asg, atom_map, result_bbs, start=0, ignore=r"tracing::|__CALLSITE|level_enabled|^enabled$|Interest::"):
+    """Abstractly execute `body` from `start` under the assignment `asg` (atom -> label): at a switch whose
+    condition maps to an atom of the assignment only the edge carrying that label is followed; at noise switches
+    (tracing) and unmodelled switches all edges are followed.  Execution of a path stops at the first block in
+    `result_bbs`.  Returns (set of result blocks reached, set of unmodelled condition texts, exits reached w/o result)."""
+    ig = re.compile(ignore)
+    seen = set()
+    stack = [start]
+    results, unknown, bare_exits = set(), set(), set()
+    while stack:
+        b = stack.pop()
+        if b in seen:
+            continue
+        seen.add(b)
+        if b in result_bbs:
+            results.add(b)
+            continue
+        info = body.switch_info(b)
+        if info:
+            cond, labs = info
+            text = render(cond)
+            a = _sym(text, atom_map)
+            if a is not None and a in asg:
+                nxt = [t for t, ls in labs.items() if asg[a] in ls]
+                # labels not covered explicitly (e.g. integer 'otherwise')
+                if not nxt:
+                    nxt = [t for t, ls in labs.items() if "otherwise" in ls]
+                stack.extend(nxt)
+                continue
+            if a is None and not ig.search(text):
+                unknown.add(text[:140])
+            stack.extend(labs.keys())
+            continue
+        ss = body.succ[b]
+        if not ss:
+            t = body.blocks[b]["term"]
+            if t and t["k"] == "return":
+                bare_exits.add(b)
+        stack.extend(ss)
+    return results, unknown, bare_exits
+
+
+def check_cells(ctx, rule, name, body, result_sites, value_of, atom_map, domain, ref, where="", start=0, allow_unknown=()):
+    """Exhaustive finite-partition evaluation: for every cell of `domain` run cell_eval and compare the set of
+    reached result values with ref(cell) (None = don't care)."""
+    ctx.bodies.add(body.npath)
+    by_bb = {}
+    for s in result_sites:
+        by_bb.setdefault(s.bb, []).append(s)
+    atoms = list(domain)
+    bad, unknown_all = [], set()
+    ncells = 0
+    seen_vals = set()
+    for combo in itertools.product(*[domain[a] for a in atoms]):
+        asg = dict(zip(atoms, combo))
+        want = ref(asg)
+        if want is None:
+            continue
+        ncells += 1
+        res, unk, bare = cell_eval(body, asg, atom_map, set(by_bb), start)
+        unknown_all |= unk
+        vals = set()
+        for b in res:
+            for s in by_bb[b]:
+                v = value_of(s)
+                vals.add(v(asg) if callable(v) else v)
+        if bare:
+            vals.add("<no-result>")
+        seen_vals |= vals
+        wants = want if isinstance(want, (set, frozenset)) else {want}
+        if vals != wants:
+            if len(bad) < 6:
+                bad.append("%s -> got %s want %s" % (asg, sorted(map(str, vals)), sorted(map(str, wants))))
+    unknown_all = {u for u in unknown_all if not any(re.search(p, u) for p in allow_unknown)}
+    ctx.ob(rule, name + "/no-unmodelled-guards", not unknown_all, where, "conditions outside the table's atoms: %s" % sorted(unknown_all)[:4])
+    ctx.ob(rule, name + "/table", not bad and ncells > 0, where,
+           "abstract evaluation over %d cells of %s: %s" % (ncells, atoms, "all equal to reference table (values %s)" % sorted(map(str, seen_vals)) if not bad else "; ".join(bad)))
+    return not bad and not unknown_all
